@@ -36,8 +36,12 @@ NodeFormsOK(f) == CASE f.k = "sym" -> IsAbs(G, f.s) /\ Recursive(G, f.s)
                     \* a union that mixes node alternatives with plain values: choosing the value ends the branch
                     \* early although a node still fits, so "all branches end at the maximum depth" does not say
                     \* which of the two a full program takes; the clause is not defined there
-                    [] f.k = "union" -> /\ \A i \in DOMAIN f.es : NodeFormsOK(f.es[i])
-                                        /\ \A i, j \in DOMAIN f.es : (FormSyms(f.es[i]) = {}) = (FormSyms(f.es[j]) = {})
+                    [] f.k = "union" -> \/ /\ \A i \in DOMAIN f.es : NodeFormsOK(f.es[i])
+                                           /\ \A i, j \in DOMAIN f.es : (FormSyms(f.es[i]) = {}) = (FormSyms(f.es[j]) = {})
+                                        \* a union of classes one of which is a recursive abstract type: a concrete member
+                                        \* simply ends its branch and has to sit at the maximum depth like every leaf
+                                        \/ /\ \A i \in DOMAIN f.es : f.es[i].k = "sym"
+                                           /\ \E i \in DOMAIN f.es : IsAbs(G, f.es[i].s) /\ Recursive(G, f.es[i].s)
                     [] f.k \in {"tuple", "ann"} -> \A i \in DOMAIN f.es : NodeFormsOK(f.es[i])
                     [] OTHER -> TRUE
 FullDefined == /\ \A c \in Reachable(G) : IsAbs(G, c) => Recursive(G, c)        \* "every abstract type is recursive"
